@@ -248,7 +248,8 @@ CHECKS["C06"] = dict(
 
 CHECKS["C07"] = dict(
     technique="TLA+ model of the gradient operators' probe protocol with fault injection (GradPurity.tla: bind the named parameter, call, "
-              "restore in finally; the function fails at its k-th evaluation), model-checked by TLC (invariant Restored) and used to emit "
+              "restore in finally; the function fails at its k-th evaluation), model-checked by TLC (invariant Restored; for an unbounded number "
+              "of probes the invariant is proved inductive with Apalache, GradPurityInd.tla) and used to emit "
               "the scenarios; each replayed under both backends with a failing probe; recorded snapshots of all globals judged by TLC "
               "with FrameAbs.tla (FrameTrace.tla)",
     text="15 gradient forms (incl. parameter lists that name a function; f:>p, f:>a, p∇f, a∇f, p∂g, a∂g, .jacobian, loss:>[w b], [b w], [w b w], [w w], [w b]∂g, [w w]∂g) x fault "
